@@ -196,6 +196,9 @@ func evalC05(cs *c05Case) (vs []*Violation, ok bool) {
 		if !inside(pv.CSeq.CSeq, pv.CSeq.V) || !inside(pv.CSeq.Method, pv.CSeq.V) {
 			add("cseq-number-and-method-inside-value", "CSeq", fmt.Sprintf("CSeq %v Method %v V %v", pv.CSeq.CSeq, pv.CSeq.Method, pv.CSeq.V))
 		}
+		if n, m := pv.CSeq.CSeq, pv.CSeq.Method; n.Len > 0 && m.Len > 0 && int(n.Offs)+int(n.Len) > int(m.Offs) {
+			add("cseq-number-and-method-inside-value", "CSeq/number-before-method", fmt.Sprintf("CSeq %v Method %v overlap or are out of order", n, m))
+		}
 		if h := hv(sipsp.HdrCSeq); h.Len > 0 && !inside(pv.CSeq.V, h) {
 			add("value-inside-its-header", "CSeq", fmt.Sprintf("V %v header value %v", pv.CSeq.V, h))
 		}
